@@ -43,9 +43,10 @@ func vAttr(kv ...string) []html.Attribute {
 // one-letter label L_j as the last text inside it and the target "t"+L_j.
 
 type vLinkGen struct {
-	next    int
-	targets map[byte]string // label -> target
-	budget  int
+	next       int
+	targets    map[byte]string // label -> target
+	budget     int
+	unlabelled map[int]bool // link numbers whose element shows no label (an empty anchor)
 }
 
 func (g *vLinkGen) label() (string, string) {
@@ -70,6 +71,7 @@ const (
 	kPre
 	kALinkless
 	kImgNoAlt
+	kAEmpty
 	kKinds
 )
 
@@ -113,6 +115,22 @@ func (g *vLinkGen) node(depth int) *html.Node {
 		return vEl("pre", nil, g.children(depth-1)...)
 	case kALinkless:
 		return vEl("a", nil, g.children(depth-1)...)
+	case kAEmpty:
+		// an anchor with a target and nothing (or only white space) in it still
+		// is a link: it has a number, and that number opens its target
+		_, _ = g.label()
+		if g.unlabelled == nil {
+			g.unlabelled = map[int]bool{}
+		}
+		g.unlabelled[g.next] = true
+		t := g.targets[byte('A'+g.next-1)]
+		// (kept between two words: a number directly after another element's
+		// number could not be told from a two-digit number by the scanner)
+		a := vEl("a", vAttr("href", t))
+		if verifrt.Choice("blank", 2) == 1 {
+			a = vEl("a", vAttr("href", t), vText(" "))
+		}
+		return vEl("b", nil, vText("w"), a, vText("w"))
 	default: // image without alt text: the label is the link itself; not labelled
 		return vEl("img", vAttr("alt", "no source"))
 	}
